@@ -43,7 +43,9 @@ func (r *Replayer) Replay(process func(record []byte) error) (err error) {
 		}
 	}()
 
-	for _, path := range walFiles {
+	for i, path := range walFiles {
+		// a crash can only tear the file that was written last: everything before was closed by a rotation
+		isLast := i == len(walFiles)-1
 		reader, err := r.walOptions.readerFactory(path)
 		if err != nil {
 			return fmt.Errorf("error while creating WAL reader under '%s': %w", path, err)
@@ -52,6 +54,10 @@ func (r *Replayer) Replay(process func(record []byte) error) (err error) {
 
 		err = reader.Open()
 		if err != nil {
+			if isLast && isTruncation(err) {
+				// the file was created, but the crash happened before its header was written
+				break
+			}
 			return fmt.Errorf("error while opening WAL reader under '%s': %w", path, err)
 		}
 
@@ -59,6 +65,11 @@ func (r *Replayer) Replay(process func(record []byte) error) (err error) {
 			bytes, err := reader.ReadNext()
 			// io.EOF signals that no records are left to be read
 			if errors.Is(err, io.EOF) {
+				break
+			}
+
+			if isLast && isTruncation(err) {
+				// the last record was cut by the crash, it was never acknowledged
 				break
 			}
 
@@ -74,6 +85,10 @@ func (r *Replayer) Replay(process func(record []byte) error) (err error) {
 	}
 
 	return nil
+}
+
+func isTruncation(err error) bool {
+	return errors.Is(err, io.EOF) || errors.Is(err, io.ErrUnexpectedEOF)
 }
 
 func NewReplayer(walOpts *Options) (WriteAheadLogReplayI, error) {
